@@ -9,6 +9,8 @@ MIXES = {
  "c01": dict(create=5, destroynow=3, destroy=2, update=1, cleararch=1, lock=1, unlock=1, query=1, dump=1),
  "c02": dict(create=4, assign=4, assign0=2, remove=3, build=3, destroynow=2, clone=1, query=1, dump=1),
  "c05": dict(create=3, assign=3, assign0=1, remove=2, destroynow=2, destroy=1, build=1, lock=2, unlock=1, update=1),
+ "c13": dict(create=4, assign=4, assign0=2, remove=4, build=3, destroynow=1, lock=1, unlock=1, dump=1),
+ "c09": dict(create=4, assign=2, remove=3, destroynow=3, destroy=2, update=1, clone=1, sremove=1, query=6, lock=1, unlock=1, dump=1),
  "c12": dict(create=3, assign=2, remove=2, sassign=4, sremove=2, build=2, destroynow=1, dump=1),
 }
 class C: pass
@@ -19,8 +21,8 @@ def main():
     seen = {}
     for i in range(n):
         rng = random.Random(seed * 100000 + i)
-        g = wc.Gen(rng, MIXES[mix], storagecap=rng.choice([None, 2, 3]), lock_bias=0.15 if mix in ("c01","c05") else 0.0,
-                   shared=(mix == "c12"), ndeps=0, avoid=frozenset(sys.argv[4].split(",")) if len(sys.argv) > 4 else frozenset())
+        g = wc.Gen(rng, MIXES[mix], storagecap=rng.choice([None, 2, 3]), lock_bias=0.15 if mix in ("c01","c05","c13","c09") else 0.0,
+                   shared=(mix == "c12"), ndeps=(rng.randint(1, 4) if mix == "c13" else 0), malformed=(0.5 if mix == "c09" else 0.0), avoid=frozenset(sys.argv[4].split(",")) if len(sys.argv) > 4 else frozenset())
         ops = g.run(rng.randint(5, 40))
         r = s.check_file(ops)
         if r:
